@@ -1,14 +1,18 @@
 #!/bin/bash
-# build.sh <variant>: compiles the harness binary for a variant into .build/bin/<variant>
+# build.sh <variant>: compiles the harness binary for a variant into .build/bin/<variant>.
+# Variants: any directory h/cmd/<variant> (uninstrumented code, overlay only); q|pipe|iter|... are
+# scheduler variants whose listed packages are first rewritten by tools/vgen (see build-e1.sh).
 set -eu
 cd "$(dirname "$0")"
 . ./env.sh
 v=$1
-mkdir -p .build/bin
-case "$v" in
- free)
-   python3 tools/mkoverlay.py .build/ov-free.json
-   (cd "$REPO" && go build -tags verif -overlay "$VERIF_ROOT/.build/ov-free.json" -o "$VERIF_ROOT/.build/bin/free" ./internal/verifh/cmd/free)
-   ;;
- *) echo "unknown variant $v" >&2; exit 2;;
-esac
+mkdir -p .build/bin .build/tmp
+if [ -x ./build-e1.sh ] && ./build-e1.sh --is-variant "$v"; then
+  exec ./build-e1.sh "$v"
+fi
+if [ -d "h/cmd/$v" ]; then
+  python3 tools/mkoverlay.py .build/ov-free.json.$$ ${VERIF_EXTRA_OVERLAY:+--merge "$VERIF_EXTRA_OVERLAY"} && mv .build/ov-free.json.$$ .build/ov-free.json
+  (cd "$REPO" && go build -tags verif -overlay "$VERIF_ROOT/.build/ov-free.json" -o "$VERIF_ROOT/.build/bin/$v" ./internal/verifh/cmd/$v)
+  exit 0
+fi
+echo "unknown variant $v" >&2; exit 2
